@@ -349,6 +349,14 @@ def run_trans(ctx, rng, idx):
 
 
 def run_feat(ctx, rng, idx):
+    real_md = rotamer.md
+    try:
+        return _run_feat(ctx, rng, idx)
+    finally:
+        rotamer.md = real_md
+
+
+def _run_feat(ctx, rng, idx):
     """Whole-trajectory entry points: all_rotamers / phi / psi / chi and the
     RotamerFeaturizer estimator on several trajectories must apply the SAME
     machine (requested buffer, fresh start per trajectory) as _rotamers."""
@@ -375,6 +383,47 @@ def run_feat(ctx, rng, idx):
             'input': 'generator' if idx % 2 else 'list'}
     ctx.describe(desc)
 
+    # Independent coordinates -> degrees step, with planted special values:
+    # the dihedral routine of mdtraj as seen by the rotamer module is wrapped
+    # so that some angles come out as exactly 0 (planar cis), -0.0, +-1e-7
+    # rad or +-pi/2; the wrapper is deterministic in (coordinates, type)
+    import zlib
+
+    class MdProxy:
+        def __init__(self, real):
+            self._real = real
+
+        def __getattr__(self, name):
+            v = getattr(self._real, name)
+            if not name.startswith('compute_') or name[8:] not in (
+                    'phi', 'psi', 'chi1', 'chi2', 'chi3', 'chi4'):
+                return v
+
+            def planted(traj, *a, **k):
+                inds, ang = v(traj, *a, **k)
+                ang = np.array(ang, copy=True)
+                g = np.random.default_rng(zlib.crc32(
+                    np.asarray(traj.xyz).tobytes()) + len(name))
+                if ang.size:
+                    m = g.random(ang.shape) < 0.12
+                    pool = np.array([0.0, -0.0, 1e-7, -1e-7, np.pi / 2,
+                                     -np.pi / 2, 0.0, 0.0], dtype=ang.dtype)
+                    ang[m] = pool[g.integers(0, len(pool), size=int(m.sum()))]
+                return inds, ang
+            return planted
+    plant = rng.random() < 0.5
+    real_md = rotamer.md
+    if plant:
+        rotamer.md = MdProxy(real_md)
+        ctx.count('planted_angle_cases')
+
+    def my_degrees(t, dih):
+        _, ang = getattr(rotamer.md, 'compute_' + dih)(t)
+        ang = np.rad2deg(np.array(ang, dtype=np.float64))
+        ang = np.where(ang < 0, ang + 360.0, ang)
+        # (the library clamps the top half degree; part of its definition)
+        return np.where(ang > 359.5, 359.5, ang)
+
     def expected(t):
         cols = []
         for dih, hb, shift in (('phi', [0, 180, 360], 0),
@@ -383,8 +432,7 @@ def run_feat(ctx, rng, idx):
                                ('chi2', [0, 120, 240, 360], 0),
                                ('chi3', [0, 120, 240, 360], 0),
                                ('chi4', [0, 120, 240, 360], 0)):
-            ang, _ = rotamer.dihedral_angles(t, dih)
-            ang = np.array(ang, dtype=float)
+            ang = my_degrees(t, dih)
             if shift:
                 ang = ang - shift
                 ang[ang < 0] += 360
